@@ -253,9 +253,9 @@ def spaces(tier):
         Space("scheduled-pairs", gen_sched([1, 2, 3, 5, 7] if tier == "quick" else [1, 2, 3, 4, 5, 6, 7, 11]), check_sched, variant="fast",
               describe="pairs of scripts scheduled round-robin with slice length s: monitor across context switches + per-script trace"),
     ]
+    sp.append(Space("pending-depth3-interacting", gen_chains(3, INTERACT, ("post",)), check, variant="fast",
+                    describe="depth-3 chains over the 22 frame-interacting templates"))
     if tier == "thorough":
-        sp.append(Space("pending-depth3-interacting", gen_chains(3, INTERACT, ("post",)), check, variant="fast",
-                        describe="depth-3 chains over the 22 frame-interacting templates"))
         sp.append(Space("pending-depth3-all", gen_chains(3, progs.TNAMES, ("nested",)), check, variant="fast",
                         describe="all depth-3 chains over all templates, construct values taken with pending operands on both sides, monitor on"))
     return sp
